@@ -198,6 +198,15 @@ def _dec(value):
     return value
 
 
+def seq_arg(kw, name):
+    """An integer-sequence argument in the spelling the case asks for: tuple, or integer ndarray
+    (which the callee could overwrite in place)."""
+    value = kw[name]
+    if isinstance(value, list) and kw.get("seq_as_array") and all(isinstance(v, int) for v in value):
+        return numpy.array(value, dtype=int)
+    return _dec(value)
+
+
 def np_on_objects(func):
     """Model via numpy itself on object arrays of opaque model elements."""
     def model(mods, kw):
@@ -253,14 +262,22 @@ def _gen_transpose(g):
     if shape and g.rng.random() < 0.6:
         axes = list(range(len(shape)))
         g.rng.shuffle(axes)
+        if g.rng.random() < 0.3:
+            axes = [ax - len(shape) if g.rng.random() < 0.5 else ax for ax in axes]
         kw["axes"] = axes
+        if g.rng.random() < 0.3:
+            kw["seq_as_array"] = True
     return {"operands": [poly_of(g, shape)], "kw": kw}
 
 
+def _axes_kw(kw):
+    return {"axes": seq_arg(kw, "axes")} if "axes" in kw else {}
+
+
 Op("transpose", "shape", _gen_transpose,
-   lambda ns, ops, kw: ns.transpose(ops[0], **kwget(kw, "axes")),
+   lambda ns, ops, kw: ns.transpose(ops[0], **_axes_kw(kw)),
    np_on_objects(lambda np_, m, kw: np_.transpose(m[0], **kwget(kw, "axes"))),
-   method=lambda ops, kw: ops[0].transpose(*( [kwget(kw, "axes")["axes"]] if "axes" in kw else [])))
+   method=lambda ops, kw: ops[0].transpose(*([_axes_kw(kw)["axes"]] if "axes" in kw else [])))
 
 
 def _gen_moveaxis(g):
@@ -270,13 +287,16 @@ def _gen_moveaxis(g):
         kw = {"source": axis_of(g, ndim), "destination": axis_of(g, ndim)}
     else:
         count = g.rng.randint(1, ndim)
-        kw = {"source": g.rng.sample(range(ndim), count),
+        kw = {"source": [ax - ndim if g.rng.random() < 0.3 else ax
+                         for ax in g.rng.sample(range(ndim), count)],
               "destination": g.rng.sample(range(ndim), count)}
+        if g.rng.random() < 0.3:
+            kw["seq_as_array"] = True
     return {"operands": [poly_of(g, shape)], "kw": kw}
 
 
 Op("moveaxis", "shape", _gen_moveaxis,
-   lambda ns, ops, kw: ns.moveaxis(ops[0], kw["source"], kw["destination"]),
+   lambda ns, ops, kw: ns.moveaxis(ops[0], seq_arg(kw, "source"), seq_arg(kw, "destination")),
    np_on_objects(lambda np_, m, kw: np_.moveaxis(m[0], kw["source"], kw["destination"])))
 
 
@@ -315,11 +335,13 @@ def _gen_repeat(g):
             kw["repeats"] = [g.rng.choice([0, 1, 2]) for _ in range(int(numpy.prod(shape)))]
         if g.rng.random() < 0.3:
             kw["axis"] = None
+    if isinstance(kw["repeats"], list) and g.rng.random() < 0.3:
+        kw["seq_as_array"] = True
     return {"operands": [poly_of(g, shape)], "kw": kw}
 
 
 def _repeat_kw(kw):
-    out = {"repeats": kw["repeats"]}
+    out = {"repeats": seq_arg(kw, "repeats")}
     if "axis" in kw:
         out["axis"] = kw["axis"]
     return out
@@ -333,11 +355,14 @@ Op("repeat", "shape", _gen_repeat,
 def _gen_tile(g):
     shape = nd_shape(g, maxdim=2)
     reps = g.rng.choice([1, 2, 3, [2], [1, 2], [2, 1], [2, 2], [1, 1, 2], [2, 1, 1], 0])
-    return {"operands": [poly_of(g, shape)], "kw": {"reps": reps}}
+    kw = {"reps": reps}
+    if isinstance(reps, list) and g.rng.random() < 0.3:
+        kw["seq_as_array"] = True
+    return {"operands": [poly_of(g, shape)], "kw": kw}
 
 
 Op("tile", "shape", _gen_tile,
-   lambda ns, ops, kw: ns.tile(ops[0], _dec(kw["reps"])),
+   lambda ns, ops, kw: ns.tile(ops[0], seq_arg(kw, "reps")),
    np_on_objects(lambda np_, m, kw: np_.tile(m[0], _dec(kw["reps"]))))
 
 
@@ -1099,6 +1124,15 @@ mirror("abs", _gen_one(), lambda ns, ops, kw: abs(ops[0]) if ns.__class__.__name
 
 
 def _gen_around(g):
+    if g.rng.random() < 0.3:
+        # integer coefficients: rounding to tens / hundreds still changes them
+        case = _gen_one(kind="int")(g)
+        spec = case["operands"][0]
+        spec["coefs"] = [G.nested_map(lambda v: v * 37 + g.rng.choice([0, 5, 15, 49]), spec["coefs"][0])]
+        if spec.get("dtype") in ("int8", "uint8"):
+            spec.pop("dtype")
+        case["kw"] = {"decimals": g.rng.choice([0, 1, -1, -1, -2])}
+        return case
     case = _gen_one(kind="float")(g)
     spec = case["operands"][0]
     spec["coefs"] = [G.nested_map(lambda v: v * 1.2345678 + 0.05, spec["coefs"][0])]
